@@ -193,6 +193,18 @@ class _Renamer(ast.NodeTransformer):
     def __init__(self, mapping):
         self.mapping = mapping     # name -> replacement expression (ast) or new name (str)
 
+    def visit_Call(self, node):
+        self.generic_visit(node)
+        # f(*(a, b)) -> f(a, b)
+        args = []
+        for x in node.args:
+            if isinstance(x, ast.Starred) and isinstance(x.value, ast.Tuple):
+                args += x.value.elts
+            else:
+                args.append(x)
+        node.args = args
+        return node
+
     def visit_Name(self, node):
         r = self.mapping.get(node.id)
         if r is None:
@@ -201,6 +213,13 @@ class _Renamer(ast.NodeTransformer):
             return ast.copy_location(ast.Name(id=r, ctx=node.ctx), node)
         if isinstance(node.ctx, ast.Load):
             return ast.copy_location(copy.deepcopy(r), node)
+        return node
+
+    def visit_ExceptHandler(self, node):
+        self.generic_visit(node)
+        r = self.mapping.get(node.name) if node.name else None
+        if isinstance(r, str):
+            node.name = r
         return node
 
     def visit_FunctionDef(self, node):
@@ -221,7 +240,7 @@ def _simple_arg(e):
 def _bind(helper, call, is_method, keep=()):
     """-> (prefix assignments, mapping for the helper body) or raise _NotInlinable"""
     a = helper.args
-    if a.vararg or a.kwarg or a.kwonlyargs or a.posonlyargs:
+    if a.kwarg or a.kwonlyargs or a.posonlyargs:
         raise _NotInlinable("signature")
     params = [p.arg for p in a.args]
     if is_method:
@@ -232,8 +251,17 @@ def _bind(helper, call, is_method, keep=()):
         raise _NotInlinable("star args")
     defaults = dict(zip(reversed(params), reversed(a.defaults)))
     bound = {}
+    extra = None
     if len(call.args) > len(params):
-        raise _NotInlinable("arity")
+        if not a.vararg:
+            raise _NotInlinable("arity")
+        extra = list(call.args[len(params):])
+    if a.vararg:
+        # *rest receives the surplus positional arguments as a tuple
+        if any(isinstance(n, ast.Name) and n.id == a.vararg.arg and isinstance(n.ctx, (ast.Store, ast.Del)) for s_ in helper.body for n in ast.walk(s_)):
+            raise _NotInlinable("vararg rebound")
+        if any(not _simple_arg(x) for x in (extra or [])):
+            raise _NotInlinable("vararg with non-trivial arguments")
     for p, v in zip(params, call.args):
         bound[p] = v
     for k in call.keywords:
@@ -264,6 +292,8 @@ def _bind(helper, call, is_method, keep=()):
             loads[n.id] = loads.get(n.id, 0) + 1
     prefix, mapping = [], {}
     suffix = "__" + helper.name.lstrip("_")
+    if a.vararg:
+        mapping[a.vararg.arg] = ast.Tuple(elts=[copy.deepcopy(x) for x in (extra or [])], ctx=ast.Load())
     for p in params:
         v = bound[p]
         if p not in stored and (_simple_arg(v) or loads.get(p, 0) <= 1 and not any(isinstance(x, (ast.Call, ast.Await)) for x in ast.walk(v))):
